@@ -7,6 +7,7 @@ Line protocol:
   `app <script> <idx>`             → fault kinds injectable at await point idx (`none` = no such point)
   `wf <script>`                    → `<storeLast> <allChecked> <allGuarded> <commits>`
   `errclass <handler|raw> <kind>`  → `pairing|connection|other` (the error_handler mapping)
+  `runpin <script> <expected> <typed>` → as `run`, the fault derived from the two PIN values
 -/
 namespace PyatvModel.C08
 
@@ -40,6 +41,10 @@ def handle (_ : Unit) (ws : List String) : Unit × String :=
     match script? name with
     | some s => ((), s!"{b01 (storeLast s)} {b01 (allChecked s)} {b01 (allGuarded s)} {b01 (commits s)}")
     | none => ((), "bad-op")
+  | ["runpin", name, e, t] =>
+    match script? name, e.toNat?, t.toNat? with
+    | some s, some e, some t => ((), showRun (runPins s e t))
+    | _, _, _ => ((), "bad-op")
   | ["errclass", g, kind] =>
     match (if g == "handler" then some Guard.handler else if g == "raw" then some Guard.raw else none),
           Fault.ofStr? kind with
